@@ -177,9 +177,19 @@ def build_harness(profiles=('debug',), bins=False):
 
 # ---------------------------------------------------------------- services
 
-def _unlimit_stack():
+def _limits_model():
+    # the extracted model recurses deeply (non-tail recursion over fuel): unlimited stack, bounded memory
     try:
         resource.setrlimit(resource.RLIMIT_STACK, (resource.RLIM_INFINITY, resource.RLIM_INFINITY))
+        resource.setrlimit(resource.RLIMIT_AS, (16 << 30, 16 << 30))
+    except Exception:
+        pass
+
+def _limits_impl():
+    # the implementation keeps the default stack, so that a runaway recursion dies at once
+    # (stack overflow abort) instead of filling the memory; bounded address space as a backstop
+    try:
+        resource.setrlimit(resource.RLIMIT_AS, (8 << 30, 8 << 30))
     except Exception:
         pass
 
@@ -199,7 +209,7 @@ def run_batch(binary, lines, timeout=600):
         tmo = timeout if hangs == 0 else min(timeout, 120)
         try:
             p = subprocess.run([binary], input='\n'.join(chunk) + '\n', stdout=subprocess.PIPE, stderr=subprocess.DEVNULL,
-                               text=True, timeout=tmo, preexec_fn=_unlimit_stack)
+                               text=True, timeout=tmo, preexec_fn=(_limits_model if binary == MODEL_BIN else _limits_impl))
             got = p.stdout.split('\n')
             if got and got[-1] == '': got.pop()
             crashed = 'crash rc=%s' % p.returncode
